@@ -699,6 +699,36 @@ def _run_train(case, ctx, sg):
                 dg = ctx.call("C10.read_sync_digital", sr.read_sync_digital, slice(a, b))
                 if dg is not ctx.CRASH:
                     ctx.check(np.array_equal(dg, exp_dig[a:b]), "C10.read_sync_slice", lambda: f"digital sync slice [{a}:{b}] differs")
+            # the answer for a range of samples is a function of those samples: this reader, which has already served
+            # other requests, and a reader opened for the occasion return the same rows (digital and analog)
+            if exp_analog or case["slices"]:
+                fresh = ctx.call("C10.open", sg.Reader, path)
+                if fresh is not ctx.CRASH:
+                    try:
+                        h = max(1, ns // 2)
+                        for a, b in list(case["slices"])[:3] + [(h, ns), (0, h), (max(0, ns - 7), ns)]:
+                            if not 0 <= a < b <= ns:
+                                continue
+                            used = ctx.call("C10.read_sync", sr.read_sync, slice(a, b))
+                            new = ctx.call("C10.read_sync", fresh.read_sync, slice(a, b))
+                            if used is ctx.CRASH or new is ctx.CRASH:
+                                break
+                            if not ctx.check(np.shape(used) == np.shape(new) == (b - a, exp_all.shape[1]) and np.array_equal(used, new),
+                                             "C10.read_sync_history",
+                                             lambda: (f"read_sync[{a}:{b}] of a reader that served other requests before differs from "
+                                                      f"the same request to a newly opened reader in columns "
+                                                      f"{sorted(set(np.argwhere(np.asarray(used) != np.asarray(new))[:, 1].tolist())) if np.shape(used) == np.shape(new) else 'shape'}")):
+                                break
+                            ctx.check(np.array_equal(np.asarray(new)[:, :16], exp_dig[a:b]), "C10.read_sync_slice",
+                                      lambda: f"digital part of read_sync[{a}:{b}] differs from the packed bits")
+                            # the fresh reader is closed and re-opened so that each request is its first
+                            fresh.close()
+                            fresh.open()
+                    finally:
+                        try:
+                            fresh.close()
+                        except Exception:  # noqa
+                            pass
             # end to end: fronts on each line == generated edges
             for k in range(16):
                 e = _edges(lines[:, k])
